@@ -349,11 +349,12 @@ class Bucket(_MutableMappingMixin, _BucketBase):
             items = items.items()
 
         _si = self.__setitem__
-        try:
-            for key, value in items:
-                _si(key, value)
-        except ValueError:
-            raise TypeError('items must be a sequence of 2-tuples')
+        for item in items:
+            try:
+                key, value = item
+            except ValueError:
+                raise TypeError('items must be a sequence of 2-tuples')
+            _si(key, value)
 
     def __setitem__(self, key, value):
         self._set(self._to_key(key), self._to_value(value))
